@@ -34,6 +34,9 @@ for p in parts:
     known.update(p.get("known_findings_hit", {}))
 level = parts[0]["level"]
 probes = addmaps("probes")
+masks = {k: v for k, v in probes.items() if k.startswith("c14:presence-mask:")}
+probes = {k: v for k, v in probes.items() if not k.startswith("c14:presence-mask:")}
+probes["c14:presence-masks-reached-of-64"] = len(masks)
 ev = {
     "property_id": prop,
     "tier": tier,
